@@ -71,6 +71,7 @@ std::string Plan::text() const
     for (auto & s : op.s) o << " ; " << esc(s);
     o << "\n";
   }
+  for (auto & q : pre) o << "pre " << esc(q.text()) << "\n";
   o << "end\n";
   return o.str();
 }
@@ -92,6 +93,13 @@ bool Plan::parse(const std::string & text, Plan & out, std::string & err)
     if (w == "idx") { ls >> out.idx; continue; }
     if (w == "h") { std::string k, v; ls >> k >> v; out.hdr[unesc(k)] = unesc(v); continue; }
     if (w == "end") { seen_end = true; break; }
+    if (w == "pre") {
+      std::string t; ls >> t;
+      Plan q; std::string e2;
+      if (!Plan::parse(unesc(t), q, e2)) { err = "bad prelude plan: " + e2; return false; }
+      out.pre.push_back(q);
+      continue;
+    }
     if (w == "op") {
       Op op; std::string k; ls >> k; op.k = unesc(k);
       std::string tok; bool strs = false;
